@@ -173,6 +173,9 @@ func (in *Interp) callFunction(fn *ssa.Function, args []Value, env []Value) Valu
 			pkgPath = p.Origin().Pkg.Pkg.Path()
 		}
 	}
+	if in.w.eng.noInit[pkgPath] && fn.Name() == "init" && fn.Synthetic != "" {
+		return nil
+	}
 	if !in.w.eng.interpretPkg(pkgPath) {
 		if fn.Name() == "init" && fn.Synthetic != "" {
 			return nil // initialiser of a modelled package
@@ -800,7 +803,7 @@ func (in *Interp) finiteKnown(t *Term) bool {
 	case OConst:
 		f := fpc(t)
 		return f == f && f-f == 0
-	case OFpOfSInt:
+	case OFpOfSInt, OFpOfSIntR:
 		return true
 	case OFpOfBits:
 		return in.path.finite[t.args[0].id]
@@ -917,8 +920,8 @@ func (in *Interp) conv(dst, src types.Type, x Value) Value {
 					}
 					panic(unsupported("unsigned symbolic int to float"))
 				}
-				if !t.IsConst() {
-					in.requireSmallInt(t)
+				if !t.IsConst() && !in.smallInt(t) {
+					return tt.FpOfSIntR(tt.Sext(t, 64))
 				}
 				return tt.FpOfSInt(tt.Sext(t, 64))
 			case ud.Kind() == types.UnsafePointer:
@@ -992,6 +995,14 @@ func (in *Interp) conv(dst, src types.Type, x Value) Value {
 		return x
 	}
 	panic(unsupported(fmt.Sprintf("conversion %v -> %v", src, dst)))
+}
+
+// smallInt forks on |t| < 2^52 (int -> float64 exact).
+func (in *Interp) smallInt(t *Term) bool {
+	tt := in.tt
+	t64 := tt.Sext(t, 64)
+	lim := tt.BV(64, 1<<52)
+	return in.path.Branch(tt.And(tt.Slt(t64, lim), tt.Slt(tt.Neg(lim), t64)))
 }
 
 // requireSmallInt: int -> float64 is exact only below 2^53.
